@@ -831,54 +831,80 @@ func (c *Ctx) rulePoppedBucketDrained(id string) {
 		return
 	}
 	n := 0
+	// drainLoops judges the loops of g that run over data derived from a value satisfying popped; eligible filters the
+	// loops by position (in the sweeping function: after the pop and not the sweep loop itself).
+	drainLoops := func(g *ssa.Function, popped func(ssa.Value) bool, eligible func(loops []*core.Loop, l *core.Loop) bool, at ssa.Instruction) {
+		loops := core.Loops(g)
+		for _, l := range loops {
+			if !eligible(loops, l) {
+				continue
+			}
+			overPopped := false
+			for b := range l.Blocks {
+				for _, in := range b.Instrs {
+					var x ssa.Value
+					switch y := in.(type) {
+					case *ssa.IndexAddr:
+						x = y.X
+					case *ssa.Index:
+						x = y.X
+					case *ssa.Range:
+						x = y.X
+					default:
+						continue
+					}
+					if depReaches(x, popped) {
+						overPopped = true
+					}
+				}
+			}
+			if !overPopped {
+				continue
+			}
+			n++
+			key := fmt.Sprintf("drain loop #%d after heap.Pop in %s", n, c.fname(g))
+			bad := ""
+			for b := range l.Blocks {
+				if _, isRet := b.Instrs[len(b.Instrs)-1].(*ssa.Return); isRet {
+					bad = "return inside the loop over the popped bucket's entries (" + c.P.Pos(lastPos(b)) + ")"
+				}
+				for _, sb := range b.Succs {
+					if !l.Blocks[sb] && b != l.Header {
+						bad = "the loop over the popped bucket's entries can be left early (at " + c.P.Pos(lastPos(b)) + "): the entries not yet copied are lost with the bucket"
+					}
+				}
+			}
+			ru.Check(bad == "", key, c.whereI(at), "left only through its normal end", bad)
+		}
+	}
 	for _, f := range c.P.ModFuncs() {
 		if f.Package() == nil || f.Package().Pkg.Path() != c.P.Rel("wasp/expiration") {
 			continue
 		}
-		loops := core.Loops(f)
 		for _, pc := range core.CallsTo(f, pop) {
+			pc := pc
 			c.R.Fn(c.fname(f))
-			// loops over data read out of the popped bucket
-			for _, l := range loops {
+			isPopped := func(v ssa.Value) bool { return v == pc.Value() }
+			drainLoops(f, isPopped, func(loops []*core.Loop, l *core.Loop) bool {
 				if !l.Blocks[pc.Instr.Block()] && !pc.Instr.Block().Dominates(l.Header) {
+					return false
+				}
+				return !(l.Blocks[pc.Instr.Block()] && l.Header.Dominates(pc.Instr.Block()) && innerOf(loops, l, pc.Instr.Block()))
+			}, pc.Instr)
+			// the popped bucket handed to a helper of the package that drains it
+			for _, cl := range core.CallsIn(f) {
+				g := cl.Static
+				if g == nil || g.Package() != f.Package() || g == f || len(g.Blocks) == 0 || !pc.Instr.Block().Dominates(cl.Instr.Block()) {
 					continue
 				}
-				overPopped := false
-				for b := range l.Blocks {
-					for _, in := range b.Instrs {
-						var x ssa.Value
-						switch y := in.(type) {
-						case *ssa.IndexAddr:
-							x = y.X
-						case *ssa.Index:
-							x = y.X
-						case *ssa.Range:
-							x = y.X
-						default:
-							continue
-						}
-						if depReaches(x, func(v ssa.Value) bool { return v == pc.Value() }) {
-							overPopped = true
-						}
+				for i, a := range cl.Common.Args {
+					if i >= len(g.Params) || !depReaches(a, isPopped) {
+						continue
 					}
+					prm := g.Params[i]
+					c.R.Fn(c.fname(g))
+					drainLoops(g, func(v ssa.Value) bool { return v == ssa.Value(prm) }, func([]*core.Loop, *core.Loop) bool { return true }, cl.Instr)
 				}
-				if !overPopped || l.Blocks[pc.Instr.Block()] && l.Header.Dominates(pc.Instr.Block()) && innerOf(loops, l, pc.Instr.Block()) {
-					continue
-				}
-				n++
-				key := fmt.Sprintf("drain loop #%d after heap.Pop in %s", n, c.fname(f))
-				bad := ""
-				for b := range l.Blocks {
-					if _, isRet := b.Instrs[len(b.Instrs)-1].(*ssa.Return); isRet {
-						bad = "return inside the loop over the popped bucket's entries (" + c.P.Pos(lastPos(b)) + ")"
-					}
-					for _, sb := range b.Succs {
-						if !l.Blocks[sb] && b != l.Header {
-							bad = "the loop over the popped bucket's entries can be left early (at " + c.P.Pos(lastPos(b)) + "): the entries not yet copied are lost with the bucket"
-						}
-					}
-				}
-				ru.Check(bad == "", key, c.whereI(pc.Instr), "left only through its normal end", bad)
 			}
 		}
 	}
